@@ -137,7 +137,10 @@ Proof. exact code_span_verbatim. Qed.
 (* 5. END TO END for the default CommonMark parser (DocProofs): a source whose lines are an opening fence (no info
    string), payload lines and a closing fence as above renders as <pre><code>ESCAPED PAYLOAD</code></pre> -- through
    line splitting, the block loop (no earlier rule takes the opening line), the inline pass, the clean-up pass and the
-   serializer; and the lines of an LF-terminated text are its lines. *)
+   serializer; likewise a source made of indented lines, and a one-line source that is a code span (k backticks, payload,
+   k backticks: every block rule in front of the paragraph rule and every inline rule in front of the backtick rule
+   declines, the span rule takes the whole line) renders as <p><code>PAYLOAD (line feeds -> spaces, one padding pair
+   removed, escaped)</code></p>; and the lines of an LF-terminated text are its lines. *)
 Theorem C11_fence_document : forall m n pre cpre trail n' texts src,
   m = 96 \/ m = 126 -> (3 <= n)%nat -> forallb is_ws pre = true -> forallb is_ws cpre = true ->
   cols_from 0 pre < 4 -> cols_from 0 cpre < 4 ->
@@ -155,6 +158,14 @@ Theorem C11_indented_document : forall pre texts src,
   forall xhtml, html_of_parse (default_fuel md_cmark) md_cmark xhtml src =
   inr (replace_nul (bs "<pre><code>" ++ escape_html (out_lines false texts ++ [10]) ++ bs "</code></pre>" ++ [10])).
 Proof. exact indented_document_html. Qed.
+
+Theorem C11_span_document : forall k T src,
+  (1 <= k)%nat -> match T with x :: _ => (x =? 96) = false | [] => False end -> last_not 96 T ->
+  iruns_lt 96 (N.of_nat k) T = true -> starts_clean T /\ no_cont_after 96 T = true ->
+  texts_of src = [repeatN 96 k ++ T ++ repeatN 96 k ++ []] ->
+  forall xhtml, html_of_parse (default_fuel md_cmark) md_cmark xhtml src =
+  inr (replace_nul (bs "<p><code>" ++ escape_html (span_text T) ++ bs "</code></p>" ++ [10])).
+Proof. exact span_document_html. Qed.
 
 Theorem C11_lines_of_text : forall ls, ls <> [] -> forallb eol_free ls = true -> texts_of (lf_lines ls) = ls.
 Proof. exact texts_of_lf_lines. Qed.
@@ -186,3 +197,4 @@ Print Assumptions C11_span_search_verbatim.
 Print Assumptions C11_fence_document.
 Print Assumptions C11_lines_of_text.
 Print Assumptions C11_indented_document.
+Print Assumptions C11_span_document.
